@@ -484,6 +484,13 @@ func (_this *Writer) WriteBigDecimalFloat(value *apd.Decimal) {
 			_this.WritePosInfinity()
 		}
 	default:
+		// Write the shortest coefficient (no trailing zeros), which is also
+		// what the decoder reports, so that re-encoding reproduces the text.
+		var reduced apd.Decimal
+		if value.Coeff.Sign() != 0 {
+			reduced.Reduce(value)
+			value = &reduced
+		}
 		var buff [64]byte
 		used := value.Append(buff[:0], 'g')
 		_this.WriteBytesNotLF(used)
